@@ -127,8 +127,11 @@ func gen(r *rand.Rand) WL {
 	case 2:
 		return genSeq(r)
 	case 3:
-		if r.IntN(2) == 0 {
+		switch r.IntN(4) {
+		case 0, 1:
 			return genPNQ(r)
+		case 2:
+			return genOPQ(r)
 		}
 	}
 	w.Mode = "bfs"
@@ -760,6 +763,8 @@ func exec(t *testing.T, w WL, cfg simrt.Config) simh.Outcome {
 		return execSeq(t, w, cfg)
 	case "pnq":
 		return execPNQ(t, w, cfg)
+	case "opq":
+		return execOPQ(t, w, cfg)
 	}
 	return execBFS(t, w, cfg)
 }
